@@ -8,37 +8,45 @@
 (***************************************************************************)
 EXTENDS PacketProps, Universes, Json
 
-VARIABLES di, input, start, phase, m, p
-vars == <<di, input, start, phase, m, p>>
+CONSTANTS Part, NParts      \* this TLC process explores declarations i with i % NParts = Part
+
+VARIABLES di, dd, dp, input, start, phase, m, p
+vars == <<di, dd, dp, input, start, phase, m, p>>
 
 \* overridden per profile in the .cfg  (U <- U_C06 ...)
 U == U_Smoke
 
 USeq == SetToSeq(U)
-ASSUME PrintT(<<"UNIV", ToJson(USeq)>>)
+ASSUME Part = 0 => PrintT(<<"UNIV", ToJson(USeq)>>)
 
-D == USeq[di]
-DP == DescribeProg(D.prog)
+\* the declaration and its described form are carried in the state (chosen once in Init)
+D == dd
+DP == dp
 
 NoPack == [st |-> "none"]
 
 Init ==
-    /\ di \in 1..Len(USeq)
-    /\ input \in InputsOf(USeq[di])
-    /\ start \in StartsOf(USeq[di])
-    /\ phase = "unpack"
-    /\ m = UInit(USeq[di].root, start)
-    /\ p = NoPack
+    LET us == USeq IN
+    \E i \in {j \in 1..Len(us) : j % NParts = Part} :
+        LET d == us[i] IN
+        /\ di = i
+        /\ dd = d
+        /\ dp = DescribeProg(d.prog)
+        /\ input \in InputsOf(d)
+        /\ start \in StartsOf(d)
+        /\ phase = "unpack"
+        /\ m = UInit(d.root, start)
+        /\ p = NoPack
 
 StepUnpack == /\ phase = "unpack" /\ RunningU(m)
               /\ m' = StepU(DP, PrefixOf(D, start) \o input, m)
-              /\ UNCHANGED <<di, input, start, phase, p>>
+              /\ UNCHANGED <<di, dd, dp, input, start, phase, p>>
 StartPack  == /\ phase = "unpack" /\ m.st = "done"
               /\ phase' = "pack" /\ p' = PInit0(D.root, m.result.vals, m.regs)
-              /\ UNCHANGED <<di, input, start, m>>
+              /\ UNCHANGED <<di, dd, dp, input, start, m>>
 StepPack   == /\ phase = "pack" /\ RunningP(p)
               /\ p' = StepP(DP, p)
-              /\ UNCHANGED <<di, input, start, phase, m>>
+              /\ UNCHANGED <<di, dd, dp, input, start, phase, m>>
 
 Next == StepUnpack \/ StartPack \/ StepPack
 Spec == Init /\ [][Next]_vars
@@ -47,11 +55,19 @@ Terminal == (phase = "unpack" /\ m.st = "fail") \/ (phase = "pack" /\ ~RunningP(
 
 Raw == PrefixOf(D, start) \o input
 
-\* ---- invariants: the operators of PacketProps applied to this run
-Inv_Machine == MachineSane(DP, Raw, start, m)
-Inv_C04_Exact == C04_Exact(Raw, m)
-Inv_C01 == Terminal /\ phase = "pack" => C01_RoundTrip(DP, Raw, start, m, p)
-Inv_C12_U == (phase = "unpack" /\ m.st = "fail") => C12_StackShape(DP, m.err)
+\* ---- invariants: the predicates of PacketProps applied to this run
+MU == UObsOf(m)
+MP == PObsOf(p)
+Inv_Machine == MachineSane(Raw, m)
+Inv_C04_Exact == C04_Exact(Raw, MU)
+Inv_C01_Bytes == Terminal => C01_Bytes(Raw, start, MU, MP)
+Inv_C01_Fill == Terminal => C01_Fill(Raw, start, MU, MP)
+Inv_C01_Len == Terminal => C01_Len(Raw, start, MU, MP)
+Inv_C01_OverlapRaises == Terminal => C01_OverlapRaises(MU, MP)
+Inv_C01_RaiseOnlyOnOverlap == Terminal => C01_RaiseOnlyOnOverlap(start, MU, MP)
+Inv_C10_Same == Terminal => C10_Same(DP, start, MU, MP)
+Inv_C10_Least == Terminal => C10_Least(DP, MU)
+Inv_C12_Shape == (m.st = "fail" => C12_Shape(DP, m.err)) /\ (phase = "pack" /\ p.st = "fail" => C12_Shape(DP, p.err))
 
 \* ---- export of every terminal behaviour (spec -> code replay)
 Emit == Terminal =>
@@ -60,6 +76,6 @@ Emit == Terminal =>
                                     evs |-> m.evs, result |-> m.result, regs |-> m.regs],
                              p |-> IF phase = "pack"
                                    THEN [st |-> p.st, out |-> p.out, err |-> p.err, writes |-> p.writes,
-                                         evs |-> p.evs, cur |-> p.frag.cur]
+                                         evs |-> p.evs, cur |-> p.frag.cur, dev |-> Dev_F5(MU, MP)]
                                    ELSE NoPack])>>)
 =============================================================================
